@@ -127,6 +127,16 @@ def run(chk):
                          "explanation": "LoadFile does not expose the same control data, member index and payload listing as Load on the same bytes"})
     for (b, info), r in zip(big, fref[len(fcases) - len(big):]):
         check_loaded(chk, ("debload", [b]), r, info)
+    # the same packages through an io.ReaderAt that returns io.EOF together with the last bytes (contract-conforming;
+    # typical of range-request readers): the package is as well-formed as before
+    ec = [("debloadeof", [b]) for b in bufs[1::2]]
+    eref = [impl[k] for k in range(1, len(bufs), 2)]
+    ei = chk.run_impl(ec)
+    chk.record("reader-at-with-eager-eof", ec, ei)
+    for c, a, r in zip(ec, ei, eref):
+        if a != r:
+            chk.violate({"kind": "property", "case": lib.show_case(("debloadeof", [b"<%d bytes>" % len(c[1][0])])), "load": r[:600], "load_eager_eof": a[:600],
+                         "explanation": "Load through an io.ReaderAt that reports io.EOF together with the final bytes does not expose what Load on a bytes.Reader exposes"})
     # two packages open at the same time: each exposes its own control data and payload (codec state is per package)
     pairs = []
     for enc in debpkg.ENCODINGS:
